@@ -7,6 +7,7 @@ import (
 	"os"
 	"os/exec"
 	"path/filepath"
+	"sort"
 	"strings"
 	"sync"
 	"sync/atomic"
@@ -405,4 +406,54 @@ func runAll(dir string, qs []*Query, timeout time.Duration, par int) []Verdict {
 	}
 	wg.Wait()
 	return out
+}
+
+// crossCheck re-runs queries that one solver refuted (unsat) on a different solver. It returns how many were
+// re-checked, how many the second solver also refuted, and the names of those it claims satisfiable.
+func crossCheck(dir string, vs []Verdict, timeout time.Duration, par int) (checked, agreed int, disagree []string) {
+	type job struct{ v Verdict }
+	var mu sync.Mutex
+	var wg sync.WaitGroup
+	sem := make(chan struct{}, par)
+	for _, v := range vs {
+		if v.Result != "unsat" || v.Q == nil || v.Q.Cover || v.Q.Text == "" || v.Backend == "syntactic" || v.Backend == "none" {
+			continue
+		}
+		other := solvers[2] // cvc5
+		if v.Backend == "cvc5-1.0" || !solverOK[other.name] {
+			other = solvers[1]
+			if v.Backend == other.name {
+				other = solvers[0]
+			}
+		}
+		if !solverOK[other.name] {
+			continue
+		}
+		wg.Add(1)
+		sem <- struct{}{}
+		go func(v Verdict, other solverSpec) {
+			defer wg.Done()
+			defer func() { <-sem }()
+			fn := filepath.Join(dir, "x_"+sanitize(v.Q.Name+"_"+v.Q.Sub)+".smt2")
+			os.WriteFile(fn, []byte(v.Q.Text), 0o644)
+			defer os.Remove(fn)
+			ctx, cancel := context.WithTimeout(context.Background(), timeout+2*time.Second)
+			defer cancel()
+			a := other.args(fn, timeout)
+			out, _ := exec.CommandContext(ctx, a[0], a[1:]...).Output()
+			first := strings.TrimSpace(strings.SplitN(string(out), "\n", 2)[0])
+			mu.Lock()
+			defer mu.Unlock()
+			checked++
+			switch first {
+			case "unsat":
+				agreed++
+			case "sat":
+				disagree = append(disagree, fmt.Sprintf("%s %s: %s unsat, %s sat", v.Q.Name, v.Q.Sub, v.Backend, other.name))
+			}
+		}(v, other)
+	}
+	wg.Wait()
+	sort.Strings(disagree)
+	return
 }
